@@ -282,20 +282,48 @@ public:
         if (evals <= 2 || (evals & (evals - 1)) == 0 || (m_caseNontrivial && samples.size() < 6))
             samples.push_back(f());
     }
+    // signatures in known_findings.json may use '*' as a wildcard (any run of characters)
+    static bool globMatch(const char *pat, const char *str)
+    {
+        while (*pat) {
+            if (*pat == '*') {
+                while (*pat == '*')
+                    pat++;
+                if (!*pat)
+                    return true;
+                for (; *str; str++)
+                    if (globMatch(pat, str))
+                        return true;
+                return false;
+            }
+            if (*pat != *str)
+                return false;
+            pat++;
+            str++;
+        }
+        return !*str;
+    }
     bool isKnown(const std::string &sig) const
     {
-        for (auto &k : known) {
-            if (k == sig)
+        for (auto &k : known)
+            if (globMatch(k.c_str(), sig.c_str()))
                 return true;
-            if (!k.empty() && k.back() == '*' && sig.compare(0, k.size() - 1, k, 0, k.size() - 1) == 0)
-                return true;
-        }
         return false;
     }
+    // triage aid (--collect): do not stop at the first failure class, record one example per signature
+    bool collectMode = false;
+    std::map<std::string, std::string> collected;
+    std::map<std::string, uint64_t> collectedCount;
     [[noreturn]] void fail(const std::string &sig, const std::string &msg)
     {
         if (isKnown(sig)) {
             excludedKnown[sig]++;
+            throw KnownSkip {};
+        }
+        if (collectMode) {
+            if (!collected.count(sig))
+                collected[sig] = msg.substr(0, 3000);
+            collectedCount[sig]++;
             throw KnownSkip {};
         }
         throw Failure { sig, msg };
@@ -460,6 +488,12 @@ inline void writeStats()
     first = true;
     for (auto &[k, v] : S.ctx.excludedKnown) {
         o << (first ? "" : ", ") << "\"" << jesc(k) << "\": " << v;
+        first = false;
+    }
+    o << "},\n \"collected\": {";
+    first = true;
+    for (auto &[k, v] : S.ctx.collected) {
+        o << (first ? "" : ", ") << "\"" << jesc(k) << "\": \"" << jesc("[x" + std::to_string(S.ctx.collectedCount[k]) + "] " + v) << "\"";
         first = false;
     }
     o << "},\n \"samples\": [";
@@ -840,6 +874,8 @@ inline int vmain(int argc, char **argv)
             S.cfg.maxSeconds = atof(next().c_str());
         else if (a == "--replay")
             replayFile = next();
+        else if (a == "--collect")
+            S.ctx.collectMode = true;
         else if (a == "--workers")
             S.ctx.workers = atoi(next().c_str());
         else if (a == "--param") {
